@@ -363,8 +363,25 @@ def exact_case(chk, cell, As, rank, tname, tolv, tol_eff, m_spec, mem, lines, ha
     desc = f"{cell}|n={n}|rank={rank}|{mat_line(As[0])}"
     chk.case(desc, nontrivial=n > 1)
     chk.count("pc_exact")
+    import linear_operator
+    from linear_operator import settings
     try:
         L, piv = call_pc(DenseLinearOperator(Tin), rank, tolv)
+        # the same through the other entry points: functional API on a tensor, tolerance from the settings context,
+        # return_pivots=False
+        variant = chk.rng.choice(["functional", "settings", "nopivots"])
+        chk.count("pc_entry:" + variant)
+        if variant == "functional":
+            L2, piv2 = linear_operator.pivoted_cholesky(Tin, rank, error_tol=None if tolv is None else float(tolv), return_pivots=True)
+        elif variant == "settings" and tolv is not None:
+            with settings.preconditioner_tolerance(float(tolv)):
+                L2, piv2 = DenseLinearOperator(Tin).pivoted_cholesky(rank, return_pivots=True)
+        else:
+            L2 = DenseLinearOperator(Tin).pivoted_cholesky(rank) if tolv is None else DenseLinearOperator(Tin).pivoted_cholesky(rank, float(tolv))
+            piv2 = piv
+        if not torch.is_tensor(L2) or L2.shape != L.shape or not torch.equal(L2, L) or not torch.equal(piv2, piv):
+            viol(cell, f"entry point '{variant}' returns a different factor/pivots than op.pivoted_cholesky(rank, error_tol, return_pivots=True)", payload)
+            return
     except Exception as e:
         viol(cell, f"exception {type(e).__name__}: {str(e)[:200]}", payload)
         return
